@@ -98,6 +98,15 @@ theorem C10_order (e1 e2 : Env) (c1 c2 : Config) (f1 f2 : Nat) (bl1 bl2 : List M
   · rintro ⟨a, b, d⟩; exact ⟨a, (hr _).mp b, fun w hw => d w ((hr _).mpr hw)⟩
   · rintro ⟨a, b, d⟩; exact ⟨a, (hr _).mpr b, fun w hw => d w ((hr _).mp hw)⟩
 
+/-- C10, the exploration terminates (fuel sufficiency): in a finite universe `U` of modules that contains the main
+project and is closed under requirements, `BuildList` answers — a list or an error, never `Err.fuel` — as soon as the
+fuel exceeds `1 + Σ_{n ∈ U} (1 + number of requirements of n)`. Together with `C10_exact` this is total correctness. -/
+theorem C10_fuel (e : Env) (c : Config) (U : List Mod) (hroot : rootMod ∈ U)
+    (hU : ∀ n ∈ U, ∀ m ∈ edges (dawnReqs e (c.map (·.2))) .none n, m ∈ U) (fuel : Nat)
+    (hf : 1 + (U.map fun n => 1 + (edges (dawnReqs e (c.map (·.2))) .none n).length).sum ≤ fuel) :
+    BuildList fuel e c ≠ .error .fuel :=
+  buildListWith_fuel _ _ rootMod U hroot hU fuel hf
+
 /-! ### non-vacuity: a universe with a diamond, a cycle and two majors of one project -/
 
 namespace Example
@@ -133,6 +142,11 @@ example : BuildList 50 env' cfg = BuildList 50 env cfg := by rfl
 /-- too little fuel is reported as such, not as a list -/
 example : BuildList 3 env cfg = .error .fuel := by rfl
 
+/-- the hypotheses of `C10_fuel`: the seven modules above are a closed universe; the bound is 1 + 7 + 7 edges = 15 -/
+def U : List Mod :=
+  [rootMod, ⟨"a", v 1 0 0⟩, ⟨"b", v 1 0 0⟩, ⟨"c", v 1 0 0⟩, ⟨"d", v 1 0 0⟩, ⟨"d", v 1 1 0⟩, ⟨"d@v2", v 2 0 0⟩]
+example : BuildList 15 env cfg ≠ .error .fuel := C10_fuel env cfg U (by decide) (by decide) 15 (by decide)
+
 end Example
 
 /-!
@@ -164,6 +178,17 @@ theorem C11_upgrade (e : Env) (c c' : Config) (q : String) (fuel fuel' : Nat) (b
     (∃ v, (⟨version.path, v⟩ : Mod) ∈ bl' ∧ Ver.le version.ver v) ∧
     (∀ m ∈ bl, ∃ v, (⟨m.path, v⟩ : Mod) ∈ bl' ∧ Ver.le m.ver v) :=
   get_upgrade hwf hget hbl hres hver hup hbl'
+
+/-- C11, upgrading one project, exact form: "contains the resolved version" holds literally — the new build list has
+`p` at exactly the resolved version — whenever the resolved version does not itself (transitively) require a newer
+version of `p`. (When it does, `C11_upgrade` still gives "at or above"; that case is the known finding D15b.) -/
+theorem C11_upgrade_exact (e : Env) (c c' : Config) (q : String) (fuel fuel' : Nat) (bl bl' : List Mod) (version : Mod)
+    (hwf : WellFormed e (c.map (·.2))) (hget : Get fuel e c q = .ok c') (hbl : BuildList fuel e c = .ok bl)
+    (hres : resolveVersionQuery e bl (parseVersionQuery q) = .ok version) (hver : okReq version)
+    (hup : ∀ cur ∈ bl, cur.path = version.path → semverCompare cur.ver version.ver ≠ .gt)
+    (hself : ∀ w, UReach e [version] ⟨version.path, w⟩ → Ver.le w version.ver)
+    (hbl' : BuildList fuel' e c' = .ok bl') : version ∈ bl' :=
+  get_upgrade_exact hwf hget hbl hres hver hup hself hbl'
 
 /-- C11, upgrading all projects: every project of the old build list is in the new one at the version `Reqs.Upgrade`
 resolves for it (its newest tag of the same major version) or above, and at its old version or above. -/
@@ -204,6 +229,21 @@ theorem C11_get_idem (e : Env) (c c' : Config) (q : String) (fuel0 fuel : Nat) (
     (hres : resolveVersionQuery e bl' (parseVersionQuery q) = .ok version) (hver : okReq version)
     (hland : version ∈ bl') : Get fuel e c' q = .ok c' :=
   get_landed_noop hwf' (transformReqs_sorted hget hnames) hbl' hres hver hland
+
+/-- C11, downgrading — PARTIAL. Proved: when `get p@q` is a downgrade (the current build list has `p` above the resolved
+version), the project file it writes resolves to exactly the build list `mvs.Downgrade` computed — the file and the
+algorithm agree, names and all (`C11_names`). NOT proved (the gap): that this list has `p` at or below the resolved
+version and nothing above its old version; that is the exclusion-closure invariant of `add`/`exclude` in `mvs.Downgrade`
+(a module is kept only if nothing it transitively requires exceeds the downgraded maxima), checked on the implementation
+by the judge of `bin/check C11` (kinds `get-downgrade-above`) and by the correspondence stream `mvs.edit`. -/
+theorem C11_downgrade_partial (e : Env) (c c' : Config) (q : String) (fuel fuel' : Nat) (bl bl' : List Mod) (version : Mod)
+    (hwf : WellFormed e (c.map (·.2))) (htags : ∀ t ∈ e.tags, okReq t)
+    (hget : Get fuel e c q = .ok c') (hbl : BuildList fuel e c = .ok bl)
+    (hres : resolveVersionQuery e bl (parseVersionQuery q) = .ok version) (hver : okReq version)
+    (hdown : ∃ cur ∈ bl, cur.path = version.path ∧ semverCompare cur.ver version.ver = .gt)
+    (hbl' : BuildList fuel' e c' = .ok bl') :
+    ∃ bld, mvsDowngrade fuel (dawnReqs e (c.map (·.2))) (previous e) rootMod version = .ok bld ∧ bl' = bld :=
+  get_downgrade hwf htags hget hbl hres hver hdown hbl'
 
 /-- C11, the downgrade loop terminates: when `Previous` answers `"none"` or a strictly smaller version out of a finite
 set `vs` (to which the versions the downgrade names belong), the loop `for excluded[r]` of `mvs.Downgrade` ends after at
@@ -259,6 +299,11 @@ def GetD13 (fuel : Nat) (e : Env) (c : Config) (query : String) : Except Err Con
 example : Get 30 env13 cfg13 "github.com/v/u/b@v1.1.0" = .ok [("b", ⟨B, v 1 1 0⟩)] := by rfl
 /-- … the old one does not return -/
 example : GetD13 30 env13 cfg13 "github.com/v/u/b@v1.1.0" = .error .fuel := by rfl
+
+/-- hypotheses of `C11_downgrade_partial` (same input): the current list has b v1.2.0, the query resolves b v1.1.0 -/
+example : BuildList 30 env13 cfg13 = .ok [rootMod, ⟨A, v 1 1 0⟩, ⟨B, v 1 2 0⟩] := by rfl
+example : resolveVersionQuery env13 [rootMod, ⟨A, v 1 1 0⟩, ⟨B, v 1 2 0⟩] (parseVersionQuery "github.com/v/u/b@v1.1.0") =
+    .ok ⟨B, v 1 1 0⟩ := by rfl
 
 /-- hypotheses of `C11_tidy`, `C11_idem_tidy`: b is implied by a -/
 example : Tidy 30 env13 cfg13 = .ok [("a", ⟨A, v 1 1 0⟩)] := by rfl
